@@ -87,6 +87,8 @@ def analyse_block_level(exe, path, level, context, target, calc_flag=None, curly
             if t and t[0] == 'synth' and t[1] == 'WhiteSpace':
                 ws_front = True
                 wsev = evs.pop(0)
+                obs.append(Ob(['C19'], 'position', 'synthesized descendant whitespace not positioned at the token it precedes (%d)' % i, path,
+                              z3.Not(same_pos(steptoken_pos(wsev[3]), token_position(level, i))), target))
                 if context != 'selector':
                     obs.append(Ob(['C08'], 'whitespace', 'preserved whitespace emitted in value context', path, z3.BoolVal(True), target))
         prev_is_ws = z3.And(tok_kind(level, i - 1) == TK['WhiteSpace']) if (i > 0 and (i - 1) in consumed) else z3.BoolVal(False)
@@ -112,6 +114,8 @@ def analyse_block_level(exe, path, level, context, target, calc_flag=None, curly
             obs.append(Ob(['C09'], 'class-call', 'write_maybe_class_name for a non-Ident token %d' % i, path, k != TK['Ident'], target))
             if tok_of(e0[1]) != (level, i):
                 obs.append(Ob(['C09', 'C19'], 'provenance', 'write_maybe_class_name got another token than the one read', path, z3.BoolVal(True), target))
+            obs.append(Ob(['C19'], 'position', 'class token %d handed on with a position that is not its own' % i, path,
+                          z3.Not(same_pos(steptoken_pos(e0[1]), token_position(level, i))), target))
             if context != 'selector':
                 obs.append(Ob(['C09'], 'nothing-else', 'class handling in value context (token %d)' % i, path, z3.BoolVal(True), target))
             flag = e0[3]
@@ -122,6 +126,8 @@ def analyse_block_level(exe, path, level, context, target, calc_flag=None, curly
             continue
         if e0[0] == 'rpx_dimension' and len(evs) == 1:
             obs.append(Ob(['C10', 'C08'], 'dimension-call', 'write_maybe_rpx_dimension for a non-Dimension token %d' % i, path, k != TK['Dimension'], target))
+            obs.append(Ob(['C19'], 'position', 'dimension token %d handed on with a position that is not its own' % i, path,
+                          z3.Not(same_pos(steptoken_pos(e0[1]), token_position(level, i))), target))
             ok_args = tok_of(e0[1]) == (level, i)
             if not ok_args:
                 obs.append(Ob(['C10', 'C19'], 'provenance', 'write_maybe_rpx_dimension got another token', path, z3.BoolVal(True), target))
@@ -144,8 +150,10 @@ def analyse_block_level(exe, path, level, context, target, calc_flag=None, curly
                 else:
                     obs.append(Ob(['C10'], 'rpx-miss', 'Dimension %d copied without rpx handling' % i, path, k == TK['Dimension'], target))
                     obs.append(Ob(['C08'], 'whitespace', 'raw whitespace token copied in value context', path, k == TK['WhiteSpace'], target))
-                if not (isinstance(e0[4], Agg) and e0[4].variant == 'None'):
-                    obs.append(Ob(['C19'], 'name', 'copied token carries a source name', path, z3.BoolVal(True), target))
+                obs.append(Ob(['C19'], 'name', 'copied token carries a source name', path,
+                              z3.BoolVal(not (isinstance(e0[4], Agg) and e0[4].variant == 'None')), target))
+                obs.append(Ob(['C19'], 'position', 'copied token %d does not carry its own source position' % i, path,
+                              z3.Not(same_pos(steptoken_pos(e0[3]), token_position(level, i))), target))
                 continue
             if t and t[0] == 'synth' and t[1] == 'WhiteSpace' and context == 'value':
                 # calc whitespace re-emitted
@@ -154,7 +162,8 @@ def analyse_block_level(exe, path, level, context, target, calc_flag=None, curly
                     obs.append(Ob(['C08'], 'whitespace', 'whitespace emitted outside calc', path, z3.BoolVal(True), target))
                 else:
                     obs.append(calc_ob(path, level, i, consumed, calc_flag, emitted=True, target=target))
-                pos = steptoken_pos(e0[3])
+                obs.append(Ob(['C19'], 'position', 'synthesized calc whitespace not positioned at the whitespace token %d' % i, path,
+                              z3.Not(same_pos(steptoken_pos(e0[3]), token_position(level, i))), target))
                 continue
         if len(evs) == 3 and evs[0][0] == 'out' and evs[1][0] == 'recurse' and evs[2][0] == 'out':
             t0, t2 = tok_of(evs[0][3]), tok_of(evs[2][3])
@@ -169,6 +178,10 @@ def analyse_block_level(exe, path, level, context, target, calc_flag=None, curly
                          z3.And(z3.Or(k == TK['ParenthesisBlock'], k == TK['Function']), z3.BoolVal(close == 'CloseParenthesis')))
             obs.append(Ob(['C08'], 'conservation', 'closing token %s does not match the opener %d' % (close, i), path, z3.Not(want), target))
             # close token carries the opener's position (C19: a closing bracket may point at its opening bracket)
+            obs.append(Ob(['C19'], 'position', 'opening token %d does not carry its own source position' % i, path,
+                          z3.Not(same_pos(steptoken_pos(evs[0][3]), token_position(level, i))), target))
+            obs.append(Ob(['C19'], 'position', 'closing token of block %d does not point at its opening token' % i, path,
+                          z3.Not(same_pos(steptoken_pos(evs[2][3]), token_position(level, i))), target))
             routine, opts = evs[1][1], evs[1][4]
             fname = sc_env.payload_term(level, i, 'Function', 0)
             is_calc = z3.And(k == TK['Function'], fname == z3.StringVal('calc'))
@@ -258,6 +271,8 @@ def target_value_block(mod, lmax):
         for q in done:
             if q.status == 'returned':
                 obs += analyse_block_level(exe, q, 'r.0', 'value', 'convert_rpx_in_block', calc_flag=flag)
+                obs.append(Ob(['C09'], 'nothing-else', 'class handling reached from the value routine', q,
+                              z3.BoolVal(any(e[0] == 'class_name' for e in q.events)), 'convert_rpx_in_block'))
         res_done += done
     return env, exe, res_done, obs, time.time() - t
 
@@ -292,6 +307,8 @@ def decide(exe, obs, res, props):
 
 
 # ------------------------------------------------------------------------------------------------ rendering forests as CSS
+STRING_PAYLOAD = [None]      # replay-time instantiation of string tokens (uninterpreted in the model)
+IMPORT_PATH_POOL = ['s1', 'a b', 'a%20b', 'x/*y*/z', '\u4e2d', '%', 'a%2Fb', '100%25', "it's"]
 IDENT_RX = re.compile(r'^[a-zA-Z_][a-zA-Z0-9_-]*$')
 
 
@@ -318,7 +335,7 @@ def render_token(model, level, i, env, probe):
     if name == 'IDHash':
         return '#h%d' % i
     if name == 'QuotedString':
-        return '"s%d"' % i
+        return '"%s"' % (STRING_PAYLOAD[0] if STRING_PAYLOAD[0] is not None else 's%d' % i)
     if name == 'UnquotedUrl':
         return 'url(u)'
     if name == 'Delim':
@@ -389,22 +406,28 @@ def oracle_mismatch(css, options):
     exp = [x for x in exp if x[0] != 'IMPORT']
     if imports:
         # the placeholder is a comment (invisible to the tokenizer): check its text; wrapper blocks are checked by shape only
-        n = out['normal'].count('/*%s ' % options['import_sign'])
-        if n != len(imports):
-            return '%d import placeholders for %d @import rules' % (n, len(imports)), out
+        import urllib.parse
+        found = re.findall(r'/\*%s (.*?)\*/' % re.escape(options['import_sign']), out['normal'], re.S)
+        if len(found) != len(imports):
+            return '%d import placeholders for %d @import rules' % (len(found), len(imports)), out
+        for text, imp in zip(found, imports):
+            paths = [t[1] for t in imp[1] if t[0] == 'QuotedString']
+            if paths and urllib.parse.unquote(text) != paths[0]:
+                return 'import placeholder %r does not decode to the path %r' % (text, paths[0]), out
         return None, out
     d = cssref.diff_streams(exp, got)
     if d is not None:
         return 'normal output differs ' + d, out
     # low-priority output: compare the token part (raw wrappers are text)
     if options.get('convert_host'):
-        glow, _ = cssref.expected(flow, {})
-        elow = [x for x in exp_low if x[0] not in ('RAW', 'RAWCLOSE')]
-        nraw = sum(1 for x in exp_low if x[0] == 'RAW')
-        if nraw == 0:
-            d = cssref.diff_streams(elow, glow)
-            if d is not None:
-                return 'low-priority output differs ' + d, out
+        glow = cssref.observed(flow)
+        glow = [x for x in glow if x != ('WhiteSpace',)]
+        elow = [x for x in exp_low if x != ('WhiteSpace',)]
+        if elow != glow:
+            j = 0
+            while j < len(elow) and j < len(glow) and elow[j] == glow[j]:
+                j += 1
+            return 'low-priority output differs at token %d: expected %s, got %s' % (j, elow[j:j + 4], glow[j:j + 4]), out
     return None, out
 
 
@@ -488,10 +511,11 @@ def host_low_events(exe, q, lows_, rec, curly_idx):
     tgt = 'parse_qualified_rule/:host'
     obs = []
     ss = q.store[('heap', 'ss')]
-    stack = ss.fields[6]
+    lay = sc_env.layout()
+    stack = ss.fields[lay.S['cur_at_rule_stacks']]
     n = len(stack.fields)
-    prefix = ss.fields[0].fields[0]
-    host_is = ss.fields[0].fields[5]
+    prefix = ss.fields[lay.S['options']].fields[lay.O['class_prefix']]
+    host_is = ss.fields[lay.S['options']].fields[lay.O['host_is']]
     exp = []
     for i in range(n):
         exp.append(('raw', stack.fields[i]))
@@ -578,7 +602,8 @@ def analyse_at_rule(exe, q, env, afs, nstack):
     pre, chunks = split_by_consume(q.events, 'r')
     outs = [e for e in q.events if e[0] == 'out']
     ret = q.result
-    sign = q.store[('heap', 'ss')].fields[0].fields[3]
+    lay = sc_env.layout()
+    sign = q.store[('heap', 'ss')].fields[lay.S['options']].fields[lay.O['import_sign']]
     has_sign = sign.discr == 1
     if not chunks:
         # nothing consumed: must return false and emit nothing
@@ -601,7 +626,7 @@ def analyse_at_rule(exe, q, env, afs, nstack):
         return obs
     obs.append(Ob(['C18'], 'import-gate', '@import with a configured sign is passed through', q, is_import, tgt))
     # ---- generic at-rule
-    stack0 = q.store[('heap', 'ss')].fields[6]
+    stack0 = q.store[('heap', 'ss')].fields[lay.S['cur_at_rule_stacks']]
     if len(stack0.fields) != nstack:
         obs.append(Ob(['C17'], 'stack', 'at-rule stack not restored at return (%d entries, %d at entry)' % (len(stack0.fields), nstack), q, z3.BoolVal(True), tgt))
     first = chunks[0][1]
@@ -808,7 +833,8 @@ def target_class_name(mod):
     obs = []
     tgt = 'write_maybe_class_name'
     ss = p.store[('heap', 'ss')]
-    prefix, sign = ss.fields[0].fields[0], ss.fields[0].fields[1]
+    lay = sc_env.layout()
+    prefix, sign = ss.fields[lay.S['options']].fields[lay.O['class_prefix']], ss.fields[lay.S['options']].fields[lay.O['class_prefix_sign']]
     has_prefix, has_sign = prefix.discr == 1, sign.discr == 1
     for q in done:
         if q.status != 'returned':
@@ -860,10 +886,15 @@ TARGETS = {
 }
 
 
+PROBE_VARIANT = [0]
+PROBES = ['.q .r', ' .q .r ', '.q .r ', ' .q']
+
+
 def probe_for(kind_name, target):
+    """content of a nested block the analysed routine hands to another routine (free in the model)"""
     if kind_name == 'CurlyBracketBlock':
         return '.q .r{w:1rpx}' if target == 'at_rule' else 'w:1rpx'
-    return '.q .r'
+    return PROBES[PROBE_VARIANT[0]]
 
 
 def witness_css(env, model, target):
@@ -934,6 +965,13 @@ def run_property(prop, tier, targets, extra_targets=()):
     lmax = 4 if tier == 'thorough' else 3
     total_paths = total_obs = 0
     classes = {}
+    # assume-guarantee across routines: which fields of the transformer may a routine leave changed?  (frame condition)
+    Css.HAVOC = ()
+    havoc = compute_modifies(mod, res)
+    Css.HAVOC = tuple(sorted(havoc))
+    lay = sc_env.layout()
+    res.coverage['frame'] = {'fields_modified_by_routines': [lay.ss[i][0] for i in Css.HAVOC],
+                             'meaning': 'after a call to another routine these fields are arbitrary in the caller (everything else is unchanged: checked per routine)'}
     for name in targets:
         fn = TARGETS[name]
         L = lmax if not (name in ('qualified_rule',) and tier == 'thorough') else lmax
@@ -987,10 +1025,35 @@ def run_property(prop, tier, targets, extra_targets=()):
                 if confirmed:
                     break
                 continue
+            pool = [(sp, 0) for sp in IMPORT_PATH_POOL] if cls.startswith('import') else [(None, v) for v in range(len(PROBES))]
+            hit = False
+            for sp, pv in pool:
+                # string payloads / percent-encoding / the content of nested blocks are free in the model: instantiate them
+                STRING_PAYLOAD[0] = sp
+                PROBE_VARIANT[0] = pv
+                css = witness_css(env, m2, name)
+                STRING_PAYLOAD[0] = None
+                PROBE_VARIANT[0] = 0
+                if css is None:
+                    break
+                opts = witness_options(m2)
+                why, out = oracle_mismatch(css, opts)
+                if why is not None:
+                    res.violation({'engine': 'M', 'harness': tname, 'class': cls},
+                                  '%s: %s | input %r -> %r (%s)' % (name, ob.desc, css, out.get('normal'), why), {'css': css, 'options': opts})
+                    hit = True
+                    break
+            if hit:
+                confirmed = True
+                break
             css = witness_css(env, m2, name)
             if css is None:
                 continue
             opts = witness_options(m2)
+            if cls == 'stack':
+                # the at-rule stack only shows in the wrappers of a *later* :host rule: compose the scenario
+                css = '@media (a){' + css + ':host{c:d}}@supports (b){:host{e:f}}'
+                opts['convert_host'] = True
             why, out = oracle_mismatch(css, opts)
             res.coverage['traces_validated_against_impl'] = res.coverage.get('traces_validated_against_impl', 0) + 1
             if why is not None:
@@ -1054,3 +1117,23 @@ def replay_class_name(res, prop, ob, model):
                           'write_maybe_class_name: %s | %r with %s -> %r (expected %r)' % (ob.desc, css, opts, got, want), {'css': css, 'options': opts})
             return True
     return False
+
+
+def compute_modifies(mod, res):
+    """least set of transformer fields (besides outputs and warnings) that some routine can leave changed; fixpoint with havoc"""
+    hav = set()
+    for it in range(3):
+        Css.HAVOC = tuple(sorted(hav))
+        new = set(hav)
+        for name, fn in TARGETS.items():
+            env, exe, done, obs, dt = fn(mod, 2)
+            res.solver_time += exe.stats['solver_time']
+            new |= Css.modified_fields(done)
+        if new == hav:
+            break
+        hav = new
+    Css.HAVOC = ()
+    if hav:
+        lay = sc_env.layout()
+        log('[frame] routines may leave these transformer fields changed: %s' % [lay.ss[i][0] for i in sorted(hav)])
+    return hav
